@@ -66,7 +66,7 @@ func deriveKeyContexts(fn *ssa.Function, ctxParam int) (map[string]*ssa.Call, bo
 // hasherWrites lists, in program order, the operands written to the hasher returned by mk.
 func hasherWrites(fn *ssa.Function, mk *ssa.Call) []ssa.Value {
 	var out []ssa.Value
-	for _, b := range fn.Blocks {
+	for _, b := range an.ScanBlocks(fn) {
 		for _, ins := range b.Instrs {
 			call, ok := ins.(*ssa.Call)
 			if !ok {
@@ -103,7 +103,7 @@ func c12(c *an.Check) {
 	}
 	// ---- R1: plaintext is returned only past every check
 	var openCall *ssa.Call
-	for _, b := range dec.Blocks {
+	for _, b := range an.ScanBlocks(dec) {
 		for _, ins := range b.Instrs {
 			if isAEADCall(ins, "Open") {
 				openCall = ins.(*ssa.Call)
@@ -138,7 +138,10 @@ func c12(c *an.Check) {
 		an.CallOK("s2.Decode ok", an.X("github.com/klauspost/compress/s2", "", "Decode")),
 		an.FactReq("ConstantTimeCompare(expected, received) != 0", func(s *an.State, x, y ssa.Value, r an.Rel) bool {
 			call := an.ResultCallTo(x, an.X("crypto/subtle", "", "ConstantTimeCompare"))
-			if call == nil || !an.IsIntConst(y, 0) || r&an.EQ != 0 || len(p2c) != 2 {
+			// ConstantTimeCompare returns 1 for equal and 0 otherwise: "!= 0" and "== 1" are the same test
+			isNe0 := an.IsIntConst(y, 0) && r&an.EQ == 0
+			isEq1 := an.IsIntConst(y, 1) && r == an.EQ
+			if call == nil || !(isNe0 || isEq1) || len(p2c) != 2 {
 				return false
 			}
 			a, b := s.Canon(call.Call.Args[0]), s.Canon(call.Call.Args[1])
@@ -229,7 +232,7 @@ func c12(c *an.Check) {
 	}
 	// AEAD: nonce derives from the nonce KDF, AD is the per-message public key, on both sides
 	var sealCall *ssa.Call
-	for _, b := range enc.Blocks {
+	for _, b := range an.ScanBlocks(enc) {
 		for _, ins := range b.Instrs {
 			if isAEADCall(ins, "Seal") {
 				sealCall = ins.(*ssa.Call)
@@ -294,7 +297,7 @@ func c12(c *an.Check) {
 	{
 		hdr := int64(0)
 		isCT := func(v ssa.Value) bool { return an.IsParam(v, 2) }
-		for _, b := range dec.Blocks {
+		for _, b := range an.ScanBlocks(dec) {
 			for _, ins := range b.Instrs {
 				if sl, ok := ins.(*ssa.Slice); ok && isCT(sl.X) && sl.Low != nil {
 					if k, ok := sl.Low.(*ssa.Const); ok && k.Int64() > hdr {
@@ -307,7 +310,7 @@ func c12(c *an.Check) {
 		minGenuine := hdr + aeadOverhead + s2Empty
 		st := p.NewState(dec)
 		nG, badG := 0, ""
-		for _, b := range dec.Blocks {
+		for _, b := range an.ScanBlocks(dec) {
 			iff, ok := b.Instrs[len(b.Instrs)-1].(*ssa.If)
 			if !ok {
 				continue
@@ -381,7 +384,7 @@ func rootIsCiphertextCopy(p *an.Prog, dec *ssa.Function, x ssa.Value) bool {
 	if !ok {
 		return false
 	}
-	for _, b := range dec.Blocks {
+	for _, b := range an.ScanBlocks(dec) {
 		for _, ins := range b.Instrs {
 			if cc, ok := ins.(*ssa.Call); ok && an.BuiltinName(cc) == "copy" {
 				if dst, ok := cc.Call.Args[0].(*ssa.Slice); ok && dst.X == ssa.Value(a) {
@@ -479,7 +482,7 @@ func decryptInputUntouched(c *an.Check) {
 	}
 	n, bad := 0, ""
 	for _, g := range an.WithClosures(dec) {
-		for _, b := range g.Blocks {
+		for _, b := range an.ScanBlocks(g) {
 			for _, ins := range b.Instrs {
 				switch x := ins.(type) {
 				case *ssa.Store:
